@@ -23,6 +23,7 @@ type GenOpts struct {
 	AllowBang    bool
 	ForcePos     bool // every production carries Pos, EndPos and Tokens
 	AllowLeftRec bool // C08: place @@ anywhere, do not filter left-recursive grammars
+	OddLits      bool // C14: literals needing escapes (quotes, backslash, non-ASCII, blanks)
 }
 
 type genState struct {
@@ -191,7 +192,12 @@ func (pc *prodGen) lit() *Expr {
 	r := pc.s.r
 	t := pc.s.lits[r.Intn(len(pc.s.lits))]
 	e := &Expr{Op: "lit", Text: t.Text, Single: r.Chance(1, 3)}
-	if pc.s.o.Profile != ProfDefault || t.Type != "" {
+	if pc.s.o.OddLits && r.Chance(1, 6) {
+		e.Text = r.Pick("\"", "\\", "\u00e9\u4e16", "a b", "'", "\t", "a\"b", "\\n", "<", "|", "~", "\n", "x\ny", "\x00", "\u2028")
+		e.Single = false
+		return e
+	}
+	if (pc.s.o.Profile != ProfDefault && pc.s.o.Profile != ProfScanCfg) || t.Type != "" {
 		switch r.Intn(8) {
 		case 0:
 			if t.Type != "" {
@@ -401,7 +407,7 @@ func (pc *prodGen) plainSeq(depth int) *Expr {
 	var kids []*Expr
 	for i := 0; i < n; i++ {
 		t := pc.plainTerm()
-		if i > 0 && r.Chance(1, 4) {
+		if (i > 0 || n == 1) && r.Chance(1, 4) {
 			t = &Expr{Op: "grp", Mode: r.Pick("?", "*", "+"), Kids: []*Expr{t}}
 		}
 		kids = append(kids, t)
